@@ -12,6 +12,10 @@
 //	rand          any use of math/rand or math/rand/v2
 //	goroutine     go statements
 //	select        select statements
+//	state         (packages under x/ only) mutable process-level state that outlives a context branch:
+//	              package-level variables of map / slice / chan / pointer type, and fields of map / slice / chan /
+//	              pointer type in structs of keeper packages (a cache inside a keeper is not rolled back with the
+//	              branch that filled it and is empty again after a restart); detail = the sorted "name:type" list
 //
 // each with file and enclosing function.  Output: Gen_NondetSites.v, one row per
 // (file, function, kind) with the number of occurrences, sorted.  The committed allow-table
@@ -136,7 +140,7 @@ func main() {
 			files = append(files, af)
 			nfiles++
 		}
-		info := &types.Info{Types: map[ast.Expr]types.TypeAndValue{}, Uses: map[*ast.Ident]types.Object{}, Selections: map[*ast.SelectorExpr]*types.Selection{}}
+		info := &types.Info{Types: map[ast.Expr]types.TypeAndValue{}, Uses: map[*ast.Ident]types.Object{}, Defs: map[*ast.Ident]types.Object{}, Selections: map[*ast.SelectorExpr]*types.Selection{}}
 		conf := types.Config{Importer: imp, FakeImportC: true, Error: func(err error) {}}
 		_, terr := conf.Check(p.ImportPath, fset, files, info)
 		if terr != nil {
@@ -148,6 +152,9 @@ func main() {
 				continue
 			}
 			scan(af, fname, info, counts, details)
+			if strings.HasPrefix(fname, "x/") {
+				scanState(af, fname, p.ImportPath, info, counts, details)
+			}
 		}
 	}
 	var sites []site
@@ -353,4 +360,77 @@ func constValue(targets []listPkg, fset *token.FileSet, imp types.Importer, pkgP
 	}
 	die("package %s not found", pkgPath)
 	return ""
+}
+
+func mutableKind(t types.Type) bool {
+	switch u := t.Underlying().(type) {
+	case *types.Map, *types.Slice, *types.Chan:
+		return true
+	case *types.Pointer:
+		_ = u
+		return true
+	}
+	return false
+}
+
+func shortType(t types.Type) string {
+	return types.TypeString(t, func(p *types.Package) string { return p.Name() })
+}
+
+// scanState lists process-level mutable state in packages under x/.
+func scanState(af *ast.File, fname, pkgPath string, info *types.Info, counts map[site]int, details map[site][]string) {
+	keeperPkg := strings.HasSuffix(pkgPath, "/keeper") || strings.Contains(pkgPath, "/keeper/")
+	for _, d := range af.Decls {
+		gd, ok := d.(*ast.GenDecl)
+		if !ok {
+			continue
+		}
+		for _, sp := range gd.Specs {
+			switch x := sp.(type) {
+			case *ast.ValueSpec:
+				if gd.Tok != token.VAR {
+					continue
+				}
+				for _, nm := range x.Names {
+					if nm.Name == "_" {
+						continue
+					}
+					obj := info.Defs[nm]
+					if obj == nil || obj.Type() == nil || !mutableKind(obj.Type()) {
+						continue
+					}
+					ts := shortType(obj.Type())
+					if ts == "*errors.Error" || ts == "[]byte" { // errorsmod.Register values; store key prefixes
+						continue
+					}
+					k := site{fname, "<package-level>", "state"}
+					counts[k]++
+					details[k] = append(details[k], nm.Name+":"+ts)
+				}
+			case *ast.TypeSpec:
+				st, ok := x.Type.(*ast.StructType)
+				if !ok || !(keeperPkg || strings.Contains(x.Name.Name, "Keeper")) {
+					continue
+				}
+				for _, f := range st.Fields.List {
+					tv, ok := info.Types[f.Type]
+					if !ok || tv.Type == nil || !mutableKind(tv.Type) {
+						continue
+					}
+					names := []string{"(embedded)"}
+					if len(f.Names) > 0 {
+						names = nil
+						for _, n := range f.Names {
+							names = append(names, n.Name)
+						}
+					}
+					for _, n := range names {
+						k := site{fname, "type " + x.Name.Name, "state"}
+						counts[k]++
+						details[k] = append(details[k], n+":"+shortType(tv.Type))
+					}
+				}
+			}
+		}
+	}
 }
